@@ -158,6 +158,8 @@ def havoc_value(eng, v, seen=None):
                 havoc_value(eng, x, seen)
     elif isinstance(v, DictListRef):
         havoc_value(eng, v.d, seen)
+    elif hasattr(v, "__pyvc_havoc__"):  # extension values replace their own contents by unknowns
+        v.__pyvc_havoc__(eng)
     elif type(v).__name__ == "DFrame":  # pandas frame model: every column's contents (row count and column set kept)
         for c in v.cols.values():
             havoc_value(eng, c, seen)
